@@ -91,7 +91,7 @@ theorem tx_spacing (txxd : Nat) (wants : List Bool) :
 /-! ### tFAWController -/
 
 def TfInv (tfaw : Nat) (s : TF) : Prop :=
-  s.window.length = tfaw ∧ s.count ≤ 4 ∧ (s.count = 4 → s.ready = false)
+  s.window.length = tfaw ∧ s.count ≤ 4 ∧ (5 ≤ tfaw → s.count = 4 → s.ready = false)
 
 theorem count_cons (v : Bool) (w : List Bool) : ((v :: w).filter id).length = (if v then 1 else 0) + (w.filter id).length := by
   cases v <;> simp [List.filter, Nat.add_comm]
@@ -99,33 +99,50 @@ theorem count_cons (v : Bool) (w : List Bool) : ((v :: w).filter id).length = (i
 theorem count_take_le (n : Nat) (l : List Bool) : ((l.take n).filter id).length ≤ (l.filter id).length :=
   ((List.take_sublist n l).filter id).length_le
 
-/-- the window never holds more than four activates, provided strobes are gated by `ready` -/
+theorem count_le_length (l : List Bool) : (l.filter id).length ≤ l.length := List.length_filter_le _ _
+
+/-- the window never holds more than four activates, provided strobes are gated by `ready`
+(for `tfaw ≤ 4` the window is too short to hold more; for `tfaw ≥ 5` the counter does not truncate) -/
 theorem tf_step (tfaw : Nat) (s : TF) (valid : Bool) (hg : valid = true → s.ready = true) (h : TfInv tfaw s) :
     TfInv tfaw (TF.step (some tfaw) s valid) := by
   obtain ⟨hl, hc, hr⟩ := h
   have hle := count_take_le tfaw (valid :: s.window)
   rw [count_cons] at hle
+  have hlen : ((valid :: s.window).take tfaw).length = tfaw := by
+    simp only [List.length_take, List.length_cons, hl]; omega
   unfold TF.count at hc hr
-  refine ⟨?_, ?_, ?_⟩
-  · simp only [TF.step, List.length_take, List.length_cons, hl]; omega
-  · simp only [TF.step, TF.count]
-    cases valid
-    · simp at hle; omega
-    · have := hg rfl
-      have hne : (s.window.filter id).length ≠ 4 := fun e => by simp [hr e] at this
-      simp at hle; omega
-  · simp only [TF.step, TF.count]
-    intro h4
-    cases valid
-    · simp at hle
-      have : (s.window.filter id).length = 4 := by omega
-      have hr' := hr this
-      simp [this, hr']
-    · have hrd := hg rfl
-      have hne : (s.window.filter id).length ≠ 4 := fun e => by simp [hr e] at hrd
-      simp at hle
-      have : (s.window.filter id).length = 3 := by omega
-      simp [this]
+  by_cases hsmall : tfaw ≤ 4
+  · refine ⟨by simp only [TF.step]; exact hlen, ?_, fun h5 => by omega⟩
+    simp only [TF.step, TF.count]
+    have := count_le_length ((valid :: s.window).take tfaw)
+    omega
+  · have h5 : 5 ≤ tfaw := by omega
+    have hw : (s.window.filter id).length % 2 ^ maxBits (max tfaw 2) = (s.window.filter id).length := by
+      apply Nat.mod_eq_of_lt
+      have hb : max tfaw 2 - 1 < 2 ^ maxBits (max tfaw 2) := by
+        have := bits_ok (max tfaw 2); simpa using this
+      have : 4 ≤ max tfaw 2 - 1 := by omega
+      omega
+    have hr' := hr h5
+    refine ⟨by simp only [TF.step]; exact hlen, ?_, ?_⟩
+    · simp only [TF.step, TF.count]
+      cases valid
+      · simp at hle; omega
+      · have := hg rfl
+        have hne : (s.window.filter id).length ≠ 4 := fun e => by simp [hr' e] at this
+        simp at hle; omega
+    · intro _
+      simp only [TF.step, TF.count, hw]
+      intro h4
+      cases valid
+      · simp at hle
+        have : (s.window.filter id).length = 4 := by omega
+        simp [this, hr' this]
+      · have hrd := hg rfl
+        have hne : (s.window.filter id).length ≠ 4 := fun e => by simp [hr' e] at hrd
+        simp at hle
+        have : (s.window.filter id).length = 3 := by omega
+        simp [this]
 
 /-- **Four-activate window**: from reset, whatever is requested, any `tfaw` consecutive controller
 cycles contain at most four gated activates (the window register *is* the last `tfaw` strobes). -/
@@ -199,6 +216,6 @@ theorem worst_phase (t1 t2 n p1 p2 c : Nat) (hp1 : p1 < n) (hc : t1 + c ≤ t2) 
 
 /-! ### non-vacuity -/
 example : (txRun 3 (TX.init (some 3)) 3 [true, true, true, true, true, true, true, true]).1.ready = false := by decide
-example : TfInv 6 (TF.init (some 6)) := by refine ⟨rfl, ?_, ?_⟩ <;> decide
+example : TfInv 6 (TF.init (some 6)) := by refine ⟨rfl, by decide, fun _ h => by simp [TF.init, TF.count] at h⟩
 
 end C03
